@@ -7,6 +7,9 @@ TRUSTED_BASE = [
     "correspondence check = differential testing of the hand-written Lean model (interpreted at Float/Float32) against kira built from /repo: "
     "harness/src (Rust), check (Python), Lean compiler/runtime Float ops assumed IEEE-754 and libm-identical to Rust's",
     "third-party crates (atomic-arena, rtrb, triple_buffer, glam, symphonia) are modelled or exercised, not verified",
+    "generated layer: tools/gen_lean.py + tools/rs2lean.py (Rust-subset -> Lean translator: parser, printer, the KOps conventions of "
+    "notes/translator.md) regenerate Gen.lean/GenFn.lean from the source on every run; the translated bodies are what the twin runs, "
+    "and Proofs/GenAgree*.lean pin them to the last validated hand-written readings",
 ]
 
 HOOK_COMMITS = ["0629e56", "a0e4ab0", "39d963f"]
